@@ -183,7 +183,7 @@ REQUEST_KINDS = [
 ]
 
 
-class CaseHooks(UnrollMixin, EBB3Hooks):
+class CaseHooks(EBB3Hooks):
     """Decides the branch conditions of a primitive from (request kind, reply class)."""
 
     def __init__(self, engine, fn, kind, length, reply):
